@@ -93,6 +93,18 @@ func C04(c *Ctx) {
 		r.Check("C04-2", key+":notassignable", pos, d.Implies(c.M(false, isCall(fnAssignable, exprTypeOf(x), termEq(T)))), "conversion emitted although direct assignment was not ruled out; reach: "+d.Describe(c.O))
 	}
 
+	r.Rule("C04-11", "ladder order: a conversion is attempted only when the String() rung did not apply: every NewTypecast call is reached only if ¬Options.Stringer ∨ ¬AssignableTo(string,T) ∨ ¬CompliesStringer(X.ExprType()) (with both :stringer and :typecast on, a Stringer source must be rendered with .String(), not string(x))")
+	for _, s := range c.CallsTo(fnNewTypecast) {
+		if len(s.Args()) < 4 {
+			continue
+		}
+		T := c.O.Of(s.Args()[2]).String()
+		x := c.O.Of(s.Args()[3]).String()
+		d := c.ReachOf(s.Instr)
+		ok := d.Implies(c.M(false, isField(fldStringer)), c.M(false, isCall(fnAssignable, isStringTypeTerm, termEq(T))), c.M(false, isCall(fnCompliesStringer, exprTypeOf(x))))
+		r.Check("C04-11", FnKey(s.Fn)+":typecast-after-stringer", c.Pos(s.Pos()), ok, "a conversion can be chosen although the String() rung applies (string(x) of a Stringer yields a rune string, not its text); reach: "+d.Describe(c.O))
+	}
+
 	r.Rule("C04-3", "every gmodel.SliceTypecastAssignment literal: reach ⇒ Options.Typecast ∧ ConvertibleTo(elem(RHS node), elem(LHS node)) ∧ ¬AssignableTo(same)")
 	if named := c.MustType("C04-3", "/pkg/generator/model", "SliceTypecastAssignment"); named != nil {
 		lits := c.Lits(named)
